@@ -26,7 +26,12 @@ type revalParams struct {
 // origin answers the next request with that status.
 var revalAlphabet = []string{"G0", "G1", "G2", "G3", "G4", "G5", "X", "Y", "B", "F404", "F500", "f503"}
 
-var revalSchemes = []string{"etag", "lm", "both", "none", "weak"}
+// The last three: the stored response had a strong ETag and the origin's 304 prints it in weak
+// form, prints another tag, or prints no validator at all. A 304 says "what you have is still
+// good" whatever it prints, so it renews the stored entry all the same.
+// etag-304-payload-fields: the 304 carries Content-Length: 0 and a Content-Type of its own (fields
+// that describe the 304's empty payload, not the stored body).
+var revalSchemes = []string{"etag", "lm", "both", "none", "weak", "etag-304-weakens", "etag-304-rotates", "etag-304-bare", "etag-304-payload-fields"}
 
 func clientConditional(kind string, now time.Time) vnet.H {
 	switch kind {
@@ -90,7 +95,7 @@ func scenarioReval(c *vrun.Ctx) {
 func runRevalCase(c *vrun.Ctx, env *penv, scheme string, hist []string, defaultAge int) {
 	uri := env.uniq("v")
 	name := "v" + strconv.Itoa(env.seq)
-	res := &vnet.Res{Name: name, Size: 24, Headers: vnet.H{{"Cache-Control", "max-age=100"}}}
+	res := &vnet.Res{Name: name, Size: 24, Headers: vnet.H{{"Cache-Control", "max-age=100"}, {"Content-Type", "application/x-reval"}}}
 	lm0 := vtime.Peek().Add(-48 * time.Hour).Truncate(time.Second)
 	setValidators := func() {
 		res.ETag, res.LM = "", time.Time{}
@@ -104,6 +109,18 @@ func runRevalCase(c *vrun.Ctx, env *penv, scheme string, hist []string, defaultA
 			res.LM = lm0.Add(time.Duration(res.Version) * time.Hour)
 		case "weak":
 			res.ETag = "W/" + vnet.ETagFor(name, res.Version)
+		case "etag-304-weakens":
+			res.ETag = vnet.ETagFor(name, res.Version)
+			res.ETag304 = "W/" + res.ETag
+		case "etag-304-rotates":
+			res.ETag = vnet.ETagFor(name, res.Version)
+			res.ETag304 = `"rotated-` + strconv.Itoa(res.Version) + `"`
+		case "etag-304-bare":
+			res.ETag = vnet.ETagFor(name, res.Version)
+			res.ETag304 = "-"
+		case "etag-304-payload-fields":
+			res.ETag = vnet.ETagFor(name, res.Version)
+			res.Headers304 = vnet.H{{"Content-Length", "0"}, {"Content-Type", "text/html; charset=utf-8"}, {"X-Only-On-304", "yes"}}
 		}
 	}
 	res.Version = 1
@@ -159,6 +176,17 @@ func runRevalCase(c *vrun.Ctx, env *penv, scheme string, hist []string, defaultA
 			resp, reqs := env.do("GET", uri, clientConditional(ev, now), "")
 			res.Force = 0
 			res.ForceOnce = 0
+			if resp.Status == 200 {
+				// C01: a body is delivered with the length and content type the origin sent with that very body
+				if ct := resp.Header.Get("Content-Type"); ct != "application/x-reval" {
+					c.SetCase(desc)
+					c.Violation("C01/reval/content-type-of-another-response/"+scheme, fmt.Sprintf("step %d: the client received a 200 with Content-Type %q; the origin sent this body with application/x-reval | %s", step, ct, desc), nil)
+				}
+				if cl := resp.Header.Get("Content-Length"); cl != "" && cl != strconv.Itoa(len(resp.Body)) {
+					c.SetCase(desc)
+					c.Violation("C01/reval/length-of-another-response/"+scheme, fmt.Sprintf("step %d: the client received a 200 with Content-Length %s and %d body bytes | %s", step, cl, len(resp.Body), desc), nil)
+				}
+			}
 			fresh := st != nil && now.Before(st.expiresAt) && !mustContactNext
 			stale := st != nil && !fresh
 			if st != nil && now.Equal(st.expiresAt) && !mustContactNext {
@@ -210,6 +238,9 @@ func runRevalCase(c *vrun.Ctx, env *penv, scheme string, hist []string, defaultA
 					break
 				}
 				rq := reqs[0]
+				if rq.Status == 304 && len(reqs) > 1 {
+					report("304-not-honoured", fmt.Sprintf("step %d: the origin answered the revalidation with 304 (ETag %q, stored %q), yet the proxy made %d further upstream request(s) instead of keeping the stored body in service", step, res.ETag304, st.etag, len(reqs)-1))
+				}
 				if st.etag != "" && rq.Header.Get("If-None-Match") != st.etag {
 					report("stored-validator-missing", fmt.Sprintf("step %d: revalidation request lacks If-None-Match %s (has %q)", step, st.etag, rq.Header.Get("If-None-Match")))
 				}
